@@ -76,6 +76,7 @@ def run(ctx) -> None:
     ctx.rule("R6", "hooks receive BUMPVER_OLD_VERSION / BUMPVER_NEW_VERSION")
     ctx.rule("R7", "contradictory flags/config rejected before anything happens")
     ctx.rule("R9", "a push / fetch command runs only with a non-empty remote")
+    ctx.rule("R10", "the tag step is the configured one: an (empty) configured tag message reaches the tag command as configured (C12's configured-message rule)")
     ctx.rule("R8", "every command name is in both the git and the hg table (or guarded by name == 'git')")
 
     root = "cli._update"
@@ -150,8 +151,20 @@ def run(ctx) -> None:
             return False
         return _mentions(e, d_name) and _mentions(e, fp_param)
     DP = tree_atom(_is_dp, "dirty pattern files", dp_names[0] if dp_names else f"set({d_name}) & {fp_param}")
-    OK1 = atom(lambda a: a.startswith("run" + SEP) and "returncode" in a, "pre-hook exit status 0")
-    OK2 = atom(lambda a: a.startswith("run_1" + SEP) and "returncode" in a, "post-hook exit status 0")
+    def hook_ok(step: str, what: str) -> BF:
+        """The 'exit status 0' atom that the post-condition of this hook's call site contributes."""
+        sites_ = by_step.get(step, [])
+        ctx.require(len(sites_) == 1, f"step '{step}': {len(sites_)} hook call sites")
+        s_ = sites_[0]
+        pcx = ip.pc(s_.fn.fq)
+        nid_ = cfgs.get(s_.fn.fq).node_containing(s_.node)
+        post = pcx.call_post.get(nid_)
+        ctx.require(post is not None, f"step '{step}': the hook's exit status is not checked (no post-condition imported from hooks.run)")
+        hits = [a for a in post.atoms if "returncode" in a]
+        ctx.require(len(hits) == 1, f"specification atom '{what}' matched {hits}")
+        return BF.var(hits[0])
+    OK1 = hook_ok("pre-hook", "pre-hook exit status 0")
+    OK2 = hook_ok("post-hook", "post-hook exit status 0")
     local = [a for a in all_atoms if a not in set().union(*(x.atoms for x in (C, V, T_, P, PRE, POST, A, D, DP, OK1, OK2)))]
     # atoms that are choices inside a step (annotated vs light tag, git vs hg, remote present, engine) are
     # existentially projected: the step is the union of its sites
@@ -510,3 +523,7 @@ def run(ctx) -> None:
                       f"the site is reached when {r.drop_unused().to_dnf()} and get_remote() can return an empty string (`{unparse(maybe_empty[0].ast) if maybe_empty else ''}`): "
                       f"without a configured remote `git push  --follow-tags <tag> HEAD` / `hg push` is issued", loc=fn_.loc(s_.node))
     ctx.floor("R9", "push / fetch sites", n_remote, 3)
+
+    # ---------------------------------------------------------------- R10
+    from checks.c12 import configured_message_rule
+    configured_message_rule(ctx, "R10")
